@@ -172,6 +172,22 @@ func init() {
 		c15Head+`<p lang="hu" style="hyphens:auto;width:5ch">kulissza hossz&uacute; kulissza asszonnyal</p><p lang="hu" style="hyphens:auto;width:6ch">kulissza</p>`)
 }
 
+// 15: raster images (the identifiers handed to the backend must not depend on what the process rendered before);
+// 16: inline SVG with chains of gradient references three links long (attributes inherited through the chain)
+func init() {
+	c15Docs = append(c15Docs,
+		c15Head+`<p><img src="data:image/png;base64,iVBORw0KGgoAAAANSUhEUgAAAAIAAAACCAIAAAD91JpzAAAAEElEQVR4nGM4IScHRAwQCgAfJgQRoo8irwAAAABJRU5ErkJggg==" style="width:10px;height:10px"> `+
+			`<img src="data:image/png;base64,iVBORw0KGgoAAAANSUhEUgAAAAMAAAABCAIAAACUgoPjAAAADUlEQVR4nGOQkzsBQQANSAMNU/ueKAAAAABJRU5ErkJggg==" style="width:12px;height:4px"> `+
+			`<img src="data:image/png;base64,iVBORw0KGgoAAAANSUhEUgAAAAIAAAACCAIAAAD91JpzAAAAEElEQVR4nGM4IScHRAwQCgAfJgQRoo8irwAAAABJRU5ErkJggg==" style="width:5px;height:5px"></p>`,
+		c15Head+`<svg width="60" height="30" viewBox="0 0 100 100" xmlns="http://www.w3.org/2000/svg" xmlns:xlink="http://www.w3.org/1999/xlink"><defs>`+
+			`<linearGradient id="c" x1="0" y1="0" x2="0" y2="50" gradientUnits="userSpaceOnUse"/><linearGradient id="b" spreadMethod="reflect" xlink:href="#c"/>`+
+			`<linearGradient id="a" xlink:href="#b"><stop offset="0" stop-color="red"/><stop offset="1" stop-color="blue"/></linearGradient>`+
+			`<linearGradient id="e" x1="0" y1="0" x2="0" y2="20" gradientUnits="userSpaceOnUse"/><linearGradient id="d" spreadMethod="repeat" xlink:href="#e"/>`+
+			`<linearGradient id="f" xlink:href="#d"><stop offset="0" stop-color="lime"/><stop offset="1" stop-color="black"/></linearGradient>`+
+			`<pattern id="p3" width="10" height="10" patternUnits="userSpaceOnUse"><rect width="5" height="5" fill="red"/></pattern><pattern id="p2" x="3" xlink:href="#p3"/><pattern id="p1" xlink:href="#p2"/></defs>`+
+			`<rect x="0" y="0" width="30" height="100" fill="url(#a)"/><rect x="30" y="0" width="30" height="100" fill="url(#f)"/><rect x="60" y="0" width="40" height="100" fill="url(#p1)"/></svg>`)
+}
+
 var (
 	c15Sheet     []tree.CSS
 	c15SheetOnce sync.Once
